@@ -676,8 +676,10 @@ class GBNFCompiler:
             else:
                 pattern = "[^\\n]*"
 
-            # Create field rule: field-name ::= "FIELD_NAME" "::" ws pattern
-            rules.append(f'{rule_name} ::= "{self._escape_literal(field_name)}" "::" ws {pattern}')
+            # Create field rule: field-name ::= "FIELD_NAME" "::" " "* pattern
+            # Only spaces may separate "::" from the value: the lexer refuses a tab there and a
+            # line break ends the assignment before its value.
+            rules.append(f'{rule_name} ::= "{self._escape_literal(field_name)}" "::" " "* {pattern}')
 
         rules.append("")
 
